@@ -56,6 +56,10 @@ def driverLine (inp obs : List String) : Bool × Bool × String × String :=
     let iobs := (splitSemi obs).filterMap parseObs
     if ops.length != opToks.length || iobs.length != ops.length then
       (false, false, "srv/unparsable-observation", s!"ops={ops.length}/{opToks.length} obs={iobs.length}")
+    -- the make-service was called without having been asked whether it is ready (a make-service that limits the number of
+    -- connections relies on being asked: one stalled connection at the limit and the next client's call hits it unprepared)
+    else if obs.any (fun t => t.startsWith "mk=" && t != "mk=0") then
+      (false, false, "C09/make-service-called-without-being-ready", "")
     -- a TLS client found the transport ended without the server having closed the session (no close_notify): the connection
     -- was cut, not closed - the client cannot tell the end of the last response from a truncation
     else if obs.any (fun t => match t.splitOn "." with | [_, r, "2", h] => r != "0" || h != "0" | _ => false) then
